@@ -1041,7 +1041,9 @@ fn nested_chain_break(ast: &Ast, cbt: u8) -> bool {
 ///  arm        body of a match / switch arm: `span(expression).start.line == span(arm).start.line` (always_indent_arms)
 ///  comment_in_chain  a comment stands between the lines of the chain (the chain arm's `add_trailing_trivia()` pulled
 ///             the statement's trailing comment up behind the chain's first line; the second pass finds it inside the chain)
-const UNSTABLE_CHAIN_CONTEXTS: &[&str] = &["map", "tuple", "call_force", "chain_root", "binop_split", "arm", "comment_in_chain"];
+///  assign_split  `space_or_indent_respecting_existing_break`: `lhs.end.line < rhs.start.line` — true e.g. for
+///             `x = -(…` over several lines, because the parser gives a UnaryOp node the span of its LAST token
+const UNSTABLE_CHAIN_CONTEXTS: &[&str] = &["map", "tuple", "call_force", "chain_root", "binop_split", "arm", "comment_in_chain", "assign_split"];
 
 /// tags of the ancestors (up to the enclosing statement) of every chain that spans several lines
 fn multiline_chain_contexts(ast: &Ast) -> Vec<String> {
@@ -1074,7 +1076,9 @@ fn multiline_chain_contexts(ast: &Ast) -> Vec<String> {
                     if l.end.line != r.start.line { Some("binop_split") } else { Some("binop") }
                 }
                 Node::Str(_) => Some("interp"),
-                Node::Assign { .. } => Some("assign"),
+                Node::Assign { target, expression, .. } => {
+                    if span_of(ast, *target).end.line < span_of(ast, *expression).start.line { Some("assign_split") } else { Some("assign") }
+                }
                 Node::MapEntry(..) => None,
                 Node::Chain((cn, _)) => match cn {
                     ChainNode::Root(r) if usize::from(*r) == child => Some("chain_root"),
@@ -1152,6 +1156,50 @@ fn header_chain_break(ast: &Ast, cbt: u8) -> bool {
         }
     }
     false
+}
+
+/// number of comments whose previous code token is a closing bracket on the same line
+fn comments_behind_closer(toks: &[Tk]) -> usize {
+    let mut n = 0;
+    for (i, t) in toks.iter().enumerate() {
+        if matches!(t.token, Token::CommentSingle | Token::CommentMulti) {
+            let prev = toks[..i].iter().rev().find(|p| p.token != Token::Whitespace);
+            if prev.is_some_and(|p| matches!(p.token, Token::RoundClose | Token::SquareClose | Token::CurlyClose) && p.eline == t.line) {
+                n += 1;
+            }
+        }
+    }
+    n
+}
+
+/// the largest number of accesses `should_chain_be_broken` counts in one chain (`.id` / `."str"` followed by a call or index)
+fn max_chain_access_count(ast: &Ast) -> u32 {
+    let mut best = 0;
+    for n in ast.nodes() {
+        let Node::Chain((ChainNode::Root(_), next)) = &n.node else { continue };
+        let (mut count, mut last_access, mut cur) = (0u32, false, *next);
+        let mut guard = 0;
+        while let Some(i) = cur {
+            guard += 1;
+            if guard > 100000 {
+                break;
+            }
+            let Node::Chain((cn, nx)) = &ast.node(i).node else { break };
+            match cn {
+                ChainNode::Call { .. } | ChainNode::Index(_) => {
+                    if last_access {
+                        count += 1;
+                    }
+                    last_access = false;
+                }
+                ChainNode::Id(_) | ChainNode::Str(_) => last_access = true,
+                _ => last_access = false,
+            }
+            cur = *nx;
+        }
+        best = best.max(count);
+    }
+    best
 }
 
 /// number of comment tokens that are the first token on their line
@@ -1286,6 +1334,22 @@ fn static_shapes(src: &str, ast: &Ast, toks: &[Tk]) -> Vec<&'static str> {
             v.push("block_in_brackets");
         }
     }
+    // F-C11-16: blank lines at the very start of the script (two line breaks before the first token)
+    {
+        let lead: String = src.chars().take_while(|c| c.is_whitespace()).collect();
+        if lead.matches('\n').count() >= 2 {
+            v.push("leading_blank_lines");
+        }
+    }
+    // F-C11-17: a multi-line comment that spans several lines and is followed by code on its last line
+    for (i, t) in toks.iter().enumerate() {
+        if t.token == Token::CommentMulti && t.eline > t.line {
+            let next = toks[i + 1..].iter().find(|n| n.token != Token::Whitespace);
+            if next.is_some_and(|n| !matches!(n.token, Token::NewLine | Token::CommentSingle | Token::CommentMulti)) {
+                v.push("code_after_multiline_comment");
+            }
+        }
+    }
     // F-C11-10: a single-line comment whose next code token is a closing bracket / closing `|`, or that
     // sits inside an import item list (after an item's comma)
     for (i, t) in toks.iter().enumerate() {
@@ -1313,10 +1377,52 @@ fn static_shapes(src: &str, ast: &Ast, toks: &[Tk]) -> Vec<&'static str> {
             continue;
         }
         let Some(first) = toks[i + 1..].iter().find(|n| !matches!(n.token, Token::Whitespace | Token::NewLine | Token::CommentSingle | Token::CommentMulti)) else { continue };
-        // F-C11-12: the skipped statement starts with `if`, `match` or `let`: the node's span does not
-        // cover the statement (block `if` / `match` statement: the keyword only; `let`: without `let`)
-        if matches!(first.token, Token::If | Token::Match | Token::Let) {
+        // F-C11-12: the node the directive applies to (the first node that starts at or after the next code
+        // token, outermost at that position) has a span that does not cover the node: its descendants end
+        // later (`if` / `match` / `switch` statements: the keyword only; an identifier with a type hint: the
+        // identifier only), or it is a `let` assignment (the span starts after `let`)
+        if first.token == Token::Let {
             v.push("fmt_skip_short_span");
+        } else {
+            let t0 = (first.line, first.col);
+            let mut best: Option<((u32, u32), (u32, u32), usize)> = None; // (start, end, index): closest start, then outermost
+            for (k, n) in ast.nodes().iter().enumerate() {
+                if matches!(n.node, Node::MainBlock { .. } | Node::Block(_)) {
+                    continue;
+                }
+                let sp = ast.span(n.span);
+                let (st, en) = ((sp.start.line, sp.start.column), (sp.end.line, sp.end.column));
+                if st < t0 {
+                    continue;
+                }
+                let better = match &best {
+                    None => true,
+                    Some((bs, be, _)) => st < *bs || (st == *bs && en > *be),
+                };
+                if better {
+                    best = Some((st, en, k));
+                }
+            }
+            if let Some((_, en, k)) = best {
+                // extent of the subtree
+                let mut stack = vec![k];
+                let mut extent = en;
+                let mut guard = 0;
+                while let Some(x) = stack.pop() {
+                    guard += 1;
+                    if guard > 20000 {
+                        break;
+                    }
+                    let sp = ast.span(ast.nodes()[x].span);
+                    extent = extent.max((sp.end.line, sp.end.column));
+                    for c in children(&ast.nodes()[x].node) {
+                        stack.push(usize::from(c));
+                    }
+                }
+                if extent > en {
+                    v.push("fmt_skip_short_span");
+                }
+            }
         }
         // the outermost expression/statement node that starts at that token (blocks excluded)
         let mut end_line = first.line;
@@ -1394,6 +1500,22 @@ fn worker_handle(line: &str) -> String {
                 if let Some(t1) = lex_all(&out1) {
                     if own_line_comments(&t1) > own_line_comments(&toks) {
                         oshapes.push("trailing_comment_moved_to_own_line");
+                    }
+                }
+            }
+        }
+        // F-C11-18: with chain_break_threshold 0 the u8 counter of should_chain_be_broken is never compared and
+        // overflows at 256 counted accesses
+        if o.cbt == 0 && !fails.is_empty() && max_chain_access_count(&ast) >= 256 {
+            oshapes.push("chain_counter_overflow");
+        }
+        // F-C11-10, idempotence symptom: a comment that stood in front of a closing bracket in the input stands
+        // BEHIND one (same line) in the first-pass output — the second pass then lays the bracket group out again
+        if fails.iter().any(|f| f["clause"].as_str() == Some("5:idempotence")) {
+            if let Ok(Ok(out1)) = kvh::catch(|| format(&src, o.to_fo())) {
+                if let Some(t1) = lex_all(&out1) {
+                    if comments_behind_closer(&t1) > comments_behind_closer(&toks) {
+                        oshapes.push("comment_migrated_behind_closer");
                     }
                 }
             }
@@ -1999,7 +2121,7 @@ impl Gen {
     fn stmt(&mut self, ind: usize, d: u32) {
         let pad = " ".repeat(ind);
         let st = self.step;
-        let choice = if d == 0 { self.rng.weighted(&[6, 5, 1, 1]) } else { self.rng.weighted(&[6, 5, 1, 1, 3, 3, 2, 2, 2, 2, 2, 2, 1, 1, 1, 1, 2]) };
+        let choice = if d == 0 { self.rng.weighted(&[6, 5, 1, 1]) } else { self.rng.weighted(&[6, 5, 1, 1, 3, 3, 2, 2, 2, 2, 2, 2, 1, 1, 1, 1, 2, 2, 2]) };
         match choice {
             0 => {
                 // assignment
@@ -2323,6 +2445,8 @@ impl Gen {
                 self.line(ind, &format!("print {a} + #- inline -# {b}"));
             }
             16 => self.skip_stmt(ind),
+            17 => self.call_with_breaking_args(ind),
+            18 => self.layout_state_sequence(ind, d),
             _ => {
                 // lines with non-ASCII text and no number literal / comment after it
                 let idb = *self.rng.pick(&NONASCII_IDS);
@@ -2336,6 +2460,82 @@ impl Gen {
             }
         }
     }
+    /// an expression the formatter spreads over several lines by itself (default options)
+    fn breaking_expr(&mut self) -> String {
+        match self.rng.below(5) {
+            // >= chain_break_threshold counted accesses
+            0 => "[3, 1, 2].to_tuple().to_list().to_tuple().to_list().size()".to_string(),
+            1 => { let k = self.rng.below(5); format!("(0..{k}).to_list().to_tuple().to_list().to_tuple().to_list()") }
+            // wider than line_length 100
+            2 => { let a = self.rng.below(1000); format!("({a} + 1111111111 + 2222222222 + 3333333333 + 4444444444 + 5555555555 + 6666666666 + 7777777777 + 8888888888 + 99)") }
+            3 => "[11111111, 22222222, 33333333, 44444444, 55555555, 66666666, 77777777, 88888888, 99999999, 10101010, 12121212].size()".to_string(),
+            // a lambda with a block body (paren-free, last position only makes sense; used as a value elsewhere)
+            _ => "('aaaaaaaaaaaaaaaaaaaaaaaaaaaaaaaaaaaaaaaaaaaaaaaaaaaaaaaaaaaa' + 'bbbbbbbbbbbbbbbbbbbbbbbbbbbbbbbbbbbbbbbbbbbbbbbbbbbb').size()".to_string(),
+        }
+    }
+
+    /// calls whose arguments are expressions the formatter breaks by itself, in first / middle / last position,
+    /// with and without parentheses, plain and nested
+    fn call_with_breaking_args(&mut self, ind: usize) {
+        let pad = " ".repeat(ind);
+        let n = 2 + self.rng.below(2);
+        let f = self.fresh("pk");
+        let params: Vec<String> = (0..n).map(|i| format!("q{i}")).collect();
+        self.out.push_str(&format!("{pad}{f} = |{}| q0\n", params.join(", ")));
+        let pos = self.rng.below(n);
+        let args: Vec<String> = (0..n).map(|i| if i == pos || self.rng.chance(1, 6) { self.breaking_expr() } else { self.int() }).collect();
+        let call = match self.rng.below(4) {
+            0 => format!("{f} {}", args.join(", ")),
+            1 => format!("({f} {})", args.join(", ")),
+            _ => format!("{f}({})", args.join(", ")),
+        };
+        let t = match self.rng.below(4) {
+            0 => format!("print {call}"),
+            1 => { let v = self.fresh("n"); self.nums.push(v.clone()); format!("{v} = {call}") }
+            2 => format!("print [{call}, 1].size()"),
+            _ => call,
+        };
+        self.line(ind, &t);
+    }
+
+    /// Cross-statement interaction inside ONE block: statements that put the block's layout state into an
+    /// unusual condition (over-long trailing comment that has to be wrapped, chain broken by the threshold, call
+    /// arguments broken by line length) followed by statements whose layout consumes that state (line-leading
+    /// operator / pipe chains, assignments too long for one line, block-bodied lambdas as last call argument).
+    fn layout_state_sequence(&mut self, ind: usize, d: u32) {
+        let pad = " ".repeat(ind);
+        let st = " ".repeat(self.step);
+        let setters = 1 + self.rng.below(2);
+        for _ in 0..setters {
+            let t = match self.rng.below(4) {
+                0 | 1 => {
+                    let v = self.fresh("n");
+                    let e = self.num(1);
+                    self.nums.push(v.clone());
+                    format!("{pad}{v} = {e} # a trailing comment that is far too long for the default line length of one hundred columns, so that it has to be wrapped somewhere\n")
+                }
+                2 => format!("{pad}print [3, 1, 2].to_tuple().to_list().to_tuple().to_list().size() # c\n"),
+                _ => format!("{pad}print (1111111111 + 2222222222 + 3333333333 + 4444444444 + 5555555555 + 6666666666 + 7777777777 + 8888888888 + 99)\n"),
+            };
+            self.out.push_str(&t);
+        }
+        for _ in 0..self.rng.below(3) {
+            self.stmt(ind, d.saturating_sub(1).min(1));
+        }
+        let consumers = 1 + self.rng.below(2);
+        for _ in 0..consumers {
+            let a = self.num(1);
+            let t = match self.rng.below(5) {
+                0 => format!("{pad}{a}\n{pad}{st}-> |q| q + 1\n{pad}{st}-> |q| q * 2\n{pad}{st}-> print\n"),
+                1 => format!("{pad}true\n{pad}{st}and false\n{pad}{st}or true\n"),
+                2 => { let v = self.fresh("n"); self.nums.push(v.clone()); format!("{pad}{v} = 1111111111 + 2222222222 + 3333333333 + 4444444444 + 5555555555 + 6666666666 + 7777777777 + 8888888888 + {a}\n") }
+                3 => format!("{pad}print {a}\n{pad}{st}+ 2\n{pad}{st}+ 3\n"),
+                _ => format!("{pad}[1, 2].each |q|\n{pad}{st}r = q + {a}\n{pad}{st}r\n"),
+            };
+            self.out.push_str(&t);
+        }
+    }
+
     /// `#[fmt:skip]` in front of a one-line or multi-line node of every statement kind, with inline
     /// comments in the token gaps (including the node's last line), a trailing comment after the node
     /// and comments on the directive's own line.
@@ -2484,6 +2684,10 @@ const FINDINGS: &[(&str, &str, &[&str])] = &[
     ("F-C11-7", "fmt_skip_multiline", &["2:", "3:", "5~"]),
     ("F-C11-12", "fmt_skip_short_span", &["2:", "3:", "5~", "6:"]),
     ("F-C11-15", "block_in_brackets", &["2:", "3:", "5~"]),
+    ("F-C11-16", "leading_blank_lines", &["5:idempotence"]),
+    ("F-C11-17", "code_after_multiline_comment", &["2:", "3:", "5~"]),
+    ("F-C11-18", "chain_counter_overflow", &["1:panic"]),
+    ("F-C11-10", "comment_migrated_behind_closer", &["5:idempotence"]),
     ("F-C11-9", "block_expr_operand", &["2:", "3:", "5~"]),
     ("F-C11-9", "line_starts_with_minus", &["2:", "3:", "5~"]),
     ("F-C11-10", "comment_before_closer", &["2:", "3:", "4:", "5~", "5:idempotence+4"]),
@@ -3011,11 +3215,12 @@ fn k_layout(cx: &mut Ctx, drv: &mut Driver, progs: &[Prog], rng: &mut Rng, n_pro
     let (mut n, mut bad, mut flat, mut skipped) = (0u64, 0u64, 0u64, 0u64);
     let (mut nr, mut badr, mut multi) = (0u64, 0u64, 0u64);
     let grid = full_grid();
-    for _ in 0..n_progs {
+    let total = if n_progs == 0 { progs.len() } else { n_progs };
+    for k in 0..total {
         if progs.is_empty() {
             break;
         }
-        let p = rng.pick(progs);
+        let p = if n_progs == 0 { &progs[k] } else { rng.pick(progs) };
         if p.src.len() > 20000 {
             continue;
         }
@@ -3287,11 +3492,14 @@ fn main() {
             let progs = load_corpus();
             let mut gens: Vec<Prog> = vec![];
             let mut r2 = rng.fork();
-            for i in 0..(if args.thorough() { 400 } else { 60 }) {
+            for i in 0..(if args.thorough() { 1500 } else { 250 }) {
                 gens.push(Prog { name: format!("genk#{}", i), src: Gen::new(r2.fork()).program(), runnable: false, path: None, source: "generated" });
             }
-            let all: Vec<Prog> = progs.into_iter().chain(gens.into_iter()).collect();
+            // every generated program (they carry the cross-statement layout sequences), then random corpus picks
+            let st0 = k_layout(&mut cx, &mut drv, &gens, &mut rng.fork(), 0);
+            let all: Vec<Prog> = progs.into_iter().collect();
             let st = k_layout(&mut cx, &mut drv, &all, &mut rng.fork(), if args.thorough() { 1500 } else { 250 });
+            k_stats["layout_generated"] = st0;
             k_stats["layout"] = st;
             k_stats["driver_requests"] = json!(drv.requests);
         }
